@@ -403,9 +403,9 @@ inline std::vector<Op> shrink(const Config& cf, const std::vector<Op>& ops, int 
 }
 
 // Class of a minimal history (names of the applied operations BEFORE the final getter, failed getters end with '!'):
-//  * the op before the getter is a getter that FAILED        -> half-built-after-failed:<what was asked>
-//  * X was given then removed with setLHS(Sigma,nullptr)      -> stale-after:setLHS(Sigma,null)-removing-the-drift
-//  * collocated option switched off in the history, not on at the end -> stale-after:setColCokUnique(off)
+//  * a getter FAILED after the last setter                    -> half-built-after-failed-request
+//  * X was given then removed with setLHS(Sigma,nullptr)      -> setLHS-null-X-keeps-nbfl
+//  * collocated option switched off in the history, not on at the end -> setColCokUnique-off-keeps-ranks
 //  * otherwise: the last setter of the minimal history (the invalidation edge that did not fire) + the mode
 inline std::string classify(const std::vector<std::string>& before, bool colcok, bool xvalid, bool bayes, bool driftRemoved)
 {
@@ -420,15 +420,11 @@ inline std::string classify(const std::vector<std::string>& before, bool colcok,
   // a getter that failed after the last setter (the last such one)
   for (int i = (int)before.size() - 1; i >= 0 && before[i].find("set") != 0; i--)
     if (before[i].back() == '!') { pop = before[i]; break; }
-  if (!pop.empty() && pop.back() == '!')
-  {
-    std::string fg = pop.substr(0, pop.size() - 1);
-    if (fg == "getStdvMat") fg = "getStdv";                   // same memo
-    if (fg == "getVarianceZstarMat") fg = "getVarianceZstar"; // same memo
-    return "half-built-after-failed:" + fg;
-  }
-  if (driftRemoved) return "stale-after:setLHS(Sigma,null)-removing-the-drift";
-  if (!colcok && sawColcokOff) return "stale-after:setColCokUnique(off)";
+  // Root causes still open in KrigingCalcul.cpp (one key each, whatever getter shows them and however they show:
+  // wrong value, delivered-vs-refused, or death of the process):
+  if (!pop.empty() && pop.back() == '!') return "half-built-after-failed-request";
+  if (driftRemoved) return "setLHS-null-X-keeps-nbfl";
+  if (!colcok && sawColcokOff) return "setColCokUnique-off-keeps-ranks";
   std::string k = "stale-after:" + prev;
   if (colcok) k += ":colcok";
   if (xvalid) k += ":xvalid";
@@ -480,7 +476,7 @@ inline void probeXvalidAfterDriftRemoved(Rng& r, Ctx& c)
     if (same) for (size_t i = 0; i < a.v.size(); i++) same = same && std::fabs(a.v[i] - b.v[i]) <= 1e-9 * (1 + std::fabs(b.v[i]));
     return same ? "OK" : "DIFFERENT";
   });
-  c.truth("kcalc-probe", "C10:incremental:KrigingCalcul:setXvalidUnique:after-drift-removed-by-setLHS", ch.ok && ch.data == "OK",
+  c.truth("kcalc-probe", "C10:incremental:KrigingCalcul:setLHS-null-X-keeps-nbfl", ch.ok && ch.data == "OK",
           ch.ok ? ch.data : ch.why());
 }
 
@@ -521,6 +517,40 @@ inline void probeColCokCountChange(Rng& r, Ctx& c)
           ch.ok ? ch.data : ch.why());
 }
 
+// Collocated option switched on, then off with setColCokUnique(nullptr, nullptr): a fresh object with the final
+// content refuses the collocated getters (no ranks); the incremental one must do the same.
+inline void probeColCokOff(Rng& r, Ctx& c)
+{
+  uint64_t seed = r.next();
+  c10::Child ch = c10::run_child([&]() -> std::string {
+    Rng q(seed);
+    Store S;
+    int neq = 5, nbfl = 1, nrhs = 2;
+    Content cur;
+    cur.Z = S.vec(q, neq); cur.Means = S.vec(q, nrhs); cur.Sigma = S.spd(q, neq, 1.); cur.X = S.rect(q, neq, nbfl, -1, 1, true);
+    cur.Sigma0 = S.rect(q, neq, nrhs, -0.6, 0.6); cur.X0 = S.rect(q, nrhs, nbfl, -1, 1, true); cur.hasRHS = true;
+    cur.Sigma00 = S.spd(q, nrhs, 2.); cur.hasVar = true;
+    cur.Zp = S.vec(q, nrhs, -1, 1); cur.rankColCok = S.ints({1}); cur.colcok = true;
+    KrigingCalcul K;
+    applyAll(K, cur);
+    (void)K.setColCokUnique(nullptr, nullptr);
+    cur.colcok = false;
+    std::string res = "OK";
+    for (int g : {12, 10, 0, 1})
+    {
+      Answer a = ask(K, g);
+      KrigingCalcul T;
+      applyAll(T, cur);
+      Answer b  = ask(T, g);
+      bool same = a.ok == b.ok && a.v.size() == b.v.size();
+      if (same) for (size_t i = 0; i < a.v.size(); i++) same = same && std::fabs(a.v[i] - b.v[i]) <= 1e-9 * (1 + std::fabs(b.v[i]));
+      if (!same) { res = std::string("DIFFERENT ") + GETTERS[g] + fmt(" delivered incremental=%d fresh=%d", a.ok, b.ok); break; }
+    }
+    return res;
+  });
+  c.truth("kcalc-probe", "C10:incremental:KrigingCalcul:setColCokUnique-off-keeps-ranks", ch.ok && ch.data == "OK", ch.ok ? ch.data : ch.why());
+}
+
 inline void run(Rng& r, Ctx& c)
 {
   Config cf;
@@ -535,8 +565,9 @@ inline void run(Rng& r, Ctx& c)
   cf.ncck        = cf.nrhs >= 2 ? r.irange(1, cf.nrhs - 1) : 1;
   c.setSig(fmt("inc:kcalc:nbfl=%d:nrhs=%d:dual=%d:bayes=%d:colcok=%d:xvalid=%d", cf.nbfl > 0, cf.nrhs > 1, cf.dual, cf.allowBayes,
                cf.allowColCok, cf.allowXvalid));
-  if (r.coin(0.03)) probeXvalidAfterDriftRemoved(r, c);
+  if (r.coin(0.05)) probeXvalidAfterDriftRemoved(r, c);
   if (r.coin(0.03)) probeColCokCountChange(r, c);
+  if (r.coin(0.05)) probeColCokOff(r, c);
 
   // ---- history
   std::vector<Op> ops;
@@ -584,7 +615,7 @@ inline void run(Rng& r, Ctx& c)
       std::vector<std::string> before = splitComma(wtrace);
       if (!before.empty()) before.pop_back(); // the final getter
       std::string key = "C10:incremental:KrigingCalcul:" + classify(before, wm.colcok, wm.xvalid, wm.bayes, wm.driftRemoved);
-      if (cf.dual) key += ":dual";
+      if (cf.dual && key.find(":stale-after:") != std::string::npos) key += ":dual";
       send({"kcalc-twin", key,
             std::string(GETTERS[w.back().arg]) + fmt(": delivered incremental=%d fresh=%d, sizes %zu/%zu; minimal history: ", wm.incOk, wm.twinOk, wm.incN, wm.twinN) + wtrace, false,
             wm.err, wm.tol});
@@ -692,11 +723,11 @@ inline void run(Rng& r, Ctx& c)
     if (!minimalDies) key = "C10:incremental:KrigingCalcul:";
     {
       std::string cls = classify(before, f[0], f[1], f[2], f[3]);
-      // a death after a failed request is one more face of the half-built memos: one key whatever was asked
-      if (minimalDies && cls.find("half-built-after-failed:") == 0) cls = "half-built-after-failed-request";
+      // a death is one more face of the same root cause: same key; only an unexplained death keeps "process-dies:"
+      if (!minimalDies || cls.find("stale-after:") != 0) key = "C10:incremental:KrigingCalcul:";
       key += cls;
+      if (cf.dual && cls.find("stale-after:") == 0) key += ":dual";
     }
-    if (cf.dual && !minimalDies) key += ":dual";
     what = std::string(minimalDies ? "dies in " : "mismatch of ") + opName(fin) + " after minimal history ";
     for (auto& b : before) what += b + ",";
   }
